@@ -3,7 +3,7 @@
    operations are read back pointwise, rejected calls change nothing, select_cells is exact,
    the emptiness layer / mask equals actual emptiness. *)
 From Coq Require Import ZArith List Bool Lia.
-From Mesa Require Import Common.ListX Model.PropLayer.
+From Mesa Require Import Common.ListX Generated.Tables Model.PropLayer.
 Import ListNotations.
 Open Scope Z_scope.
 
@@ -204,7 +204,7 @@ Record inv (st : state) : Prop := {
   inv_keys : forall id L, get_obj st id = Some L -> akeys (l_data L) = all_coords (l_dims L)
 }.
 
-Lemma inv_init d dims : inv (init d dims).
+Lemma inv_init d multi cap dims : inv (init d multi cap dims).
 Proof.
   destruct d; constructor; simpl; try reflexivity; try discriminate.
   - intros n id. destruct (n =? EMPTY); [|discriminate]. intros [= <-].
@@ -353,10 +353,28 @@ Proof.
       destruct (inv_attached _ I _ _ H) as [L [H1 H2]]. exists L. auto.
 Qed.
 
-Lemma inv_cell_add st a c : inv st -> inv (cell_add_agent st a c).
-Proof. intros I. unfold cell_add_agent. apply inv_set_agents. apply inv_cell_setattr. exact I. Qed.
 Lemma inv_cell_remove st a c : inv st -> inv (cell_remove_agent st a c).
 Proof. intros I. unfold cell_remove_agent. apply inv_cell_setattr. apply inv_set_agents. exact I. Qed.
+Lemma inv_cell_add st a c : inv st -> inv (fst (cell_add_agent st a c)).
+Proof.
+  intros I. unfold cell_add_agent. destruct (cell_full st c); simpl.
+  - apply inv_cell_setattr. exact I.
+  - apply inv_set_agents. apply inv_cell_setattr. exact I.
+Qed.
+Lemma inv_leg_remove st a c : inv st -> inv (leg_remove st a c).
+Proof. intros I. unfold leg_remove. apply inv_set_agents. exact I. Qed.
+Lemma inv_leg_place st a c : inv st -> inv (leg_place st a c).
+Proof. intros I. unfold leg_place. apply inv_set_agents. exact I. Qed.
+Lemma inv_do_move st a c0 c : inv st -> inv (fst (do_move st a c0 c)).
+Proof.
+  intros I. unfold do_move. destruct (s_discrete st).
+  - destruct (coord_eqb c c0); [exact I|].
+    pose proof (inv_cell_add st a c I) as H. destruct (cell_add_agent st a c) as [st1 [|]]; simpl in *.
+    + apply inv_cell_remove. exact H.
+    + exact H.
+  - destruct (negb (s_multi st) && occupied (drop_agent (s_agents st) a) c); simpl; [exact I|].
+    apply inv_leg_place. apply inv_leg_remove. exact I.
+Qed.
 
 Lemma step_inv st o : inv st -> inv (fst (step st o)).
 Proof.
@@ -428,16 +446,21 @@ Proof.
   - (* Place *)
     destruct (valid_coord (s_dims st) c); [|exact I].
     destruct (agent_cell (s_agents st) a); [exact I|].
-    destruct (s_discrete st); [apply inv_cell_add; exact I|].
-    destruct (occupied (s_agents st) c); [exact I|]. simpl. apply inv_set_agents. exact I.
+    destruct (s_discrete st).
+    { pose proof (inv_cell_add st a c I) as H. destruct (cell_add_agent st a c) as [st1 [|]]; exact H. }
+    destruct (s_multi st); [apply inv_leg_place; exact I|].
+    destruct (occupied (s_agents st) c); [exact I|]. apply inv_leg_place. exact I.
   - (* Move *)
     destruct (valid_coord (s_dims st) c); [|exact I].
-    destruct (agent_cell (s_agents st) a); [|exact I].
-    destruct (s_discrete st); [apply inv_cell_add; apply inv_cell_remove; exact I|].
-    destruct (occupied (drop_agent (s_agents st) a) c); [exact I|]. simpl. apply inv_set_agents. exact I.
+    destruct (agent_cell (s_agents st) a); [|exact I]. apply inv_do_move. exact I.
+  - (* MoveRel *)
+    destruct (s_discrete st) eqn:Ed; [|exact I].
+    destruct (agent_cell (s_agents st) a) as [c0|]; [|exact I].
+    destruct (Nat.eqb (length dir) (length c0) && dir_ok moore dir && valid_coord (s_dims st) (vadd c0 dir)); [|exact I].
+    apply inv_do_move. exact I.
   - (* Remove *)
     destruct (agent_cell (s_agents st) a); [|exact I].
-    destruct (s_discrete st); [apply inv_cell_remove; exact I|]. simpl. apply inv_set_agents. exact I.
+    destruct (s_discrete st); [apply inv_cell_remove; exact I|]. apply inv_leg_remove. exact I.
   - exact I.
 Qed.
 
@@ -459,53 +482,71 @@ Ltac case_all :=
          end.
 
 Definition frame (st st' : state) : Prop :=
-  s_discrete st' = s_discrete st /\ s_dims st' = s_dims st.
-Lemma frame_refl st : frame st st. Proof. split; reflexivity. Qed.
+  s_discrete st' = s_discrete st /\ s_dims st' = s_dims st /\ s_multi st' = s_multi st /\ s_cap st' = s_cap st.
+Ltac fr := unfold frame; repeat split; simpl; congruence.
+Lemma frame_refl st : frame st st. Proof. fr. Qed.
 Lemma frame_trans a b c : frame a b -> frame b c -> frame a c.
-Proof. intros [H1 H2] [H3 H4]. split; congruence. Qed.
+Proof. intros [H1 [H2 [H3 H4]]] [H5 [H6 [H7 H8]]]. fr. Qed.
 Lemma frame_cell_setattr st c n v : frame st (cell_setattr st c n v).
-Proof. unfold cell_setattr, frame. case_all; auto; split; congruence. Qed.
+Proof. unfold cell_setattr. case_all; fr. Qed.
 Lemma frame_add st id L : frame st (fst (add_layer st id L)).
-Proof. unfold add_layer, frame. case_all; auto; split; congruence. Qed.
+Proof. unfold add_layer. case_all; fr. Qed.
 Lemma frame_remove st n : frame st (fst (remove_layer st n)).
-Proof. unfold remove_layer, frame. case_all; auto; split; congruence. Qed.
+Proof. unfold remove_layer. case_all; fr. Qed.
+Lemma frame_set_agents st em ag : frame st (set_agents st em ag).
+Proof. fr. Qed.
+Lemma frame_cell_remove st a c : frame st (cell_remove_agent st a c).
+Proof. unfold cell_remove_agent. eapply frame_trans; [apply frame_set_agents|apply frame_cell_setattr]. Qed.
+Lemma frame_cell_add st a c : frame st (fst (cell_add_agent st a c)).
+Proof.
+  unfold cell_add_agent. destruct (cell_full st c); simpl.
+  - apply frame_cell_setattr.
+  - eapply frame_trans; [apply frame_cell_setattr|apply frame_set_agents].
+Qed.
+Lemma frame_do_move st a c0 c : frame st (fst (do_move st a c0 c)).
+Proof.
+  unfold do_move. destruct (s_discrete st).
+  - destruct (coord_eqb c c0); [apply frame_refl|].
+    pose proof (frame_cell_add st a c) as H. destruct (cell_add_agent st a c) as [st1 [|]]; simpl in *.
+    + eapply frame_trans; [exact H|apply frame_cell_remove].
+    + exact H.
+  - destruct (negb (s_multi st) && occupied (drop_agent (s_agents st) a) c); simpl; [apply frame_refl|].
+    unfold leg_place, leg_remove. eapply frame_trans; apply frame_set_agents.
+Qed.
 
 Lemma step_frame st o : frame st (fst (step st o)).
 Proof.
   destruct o; simpl.
-  - split; reflexivity.
+  - fr.
   - destruct (s_discrete st) eqn:Ed; [|apply frame_refl].
     pose proof (frame_add st (Z.of_nat (length (s_objs st))) (mk_layer n dt (s_dims st) v)) as H.
     destruct (add_layer st _ _) as [st1 r]. simpl in H.
-    destruct r; simpl; try apply frame_refl; destruct H; split; simpl; congruence.
+    destruct r; simpl; try apply frame_refl; destruct H as [H1 [H2 [H3 H4]]]; fr.
   - destruct (get_obj st h); [apply frame_add|apply frame_refl].
   - apply frame_remove.
   - destruct (s_discrete st && valid_coord (s_dims st) c); [|apply frame_refl].
     destruct (assoc n (s_descr st)); [apply frame_cell_setattr|apply frame_refl].
-  - unfold frame. case_all; auto; split; congruence.
-  - unfold frame. case_all; auto; split; congruence.
-  - unfold frame. case_all; auto; split; congruence.
-  - unfold frame. destruct (resolve st r); [|auto]. destruct (get_obj st z); [|auto].
-    destruct (modify_cells l fm f hasval cd); simpl; auto.
-  - unfold frame. case_all; auto; split; congruence.
-  - unfold frame. destruct (select_mask st conds exts masks only_empty); simpl; auto.
+  - case_all; fr.
+  - case_all; fr.
+  - case_all; fr.
+  - destruct (resolve st r); [|apply frame_refl]. destruct (get_obj st z); [|apply frame_refl].
+    destruct (modify_cells l fm f hasval cd); simpl; fr.
+  - case_all; fr.
+  - destruct (select_mask st conds exts masks only_empty); simpl; fr.
   - destruct (valid_coord (s_dims st) c); [|apply frame_refl].
     destruct (agent_cell (s_agents st) a); [apply frame_refl|].
     destruct (s_discrete st) eqn:Ed.
-    + simpl. unfold cell_add_agent. pose proof (frame_cell_setattr st c EMPTY 0) as [H1 H2].
-      split; simpl; congruence.
-    + destruct (occupied (s_agents st) c); simpl; [apply frame_refl|split; reflexivity].
+    + pose proof (frame_cell_add st a c) as H. destruct (cell_add_agent st a c) as [st1 [|]]; exact H.
+    + destruct (s_multi st); [unfold leg_place; apply frame_set_agents|].
+      destruct (occupied (s_agents st) c); simpl; [apply frame_refl|unfold leg_place; apply frame_set_agents].
   - destruct (valid_coord (s_dims st) c); [|apply frame_refl].
+    destruct (agent_cell (s_agents st) a) as [c0|]; [|apply frame_refl]. apply frame_do_move.
+  - destruct (s_discrete st) eqn:Ed; [|apply frame_refl].
     destruct (agent_cell (s_agents st) a) as [c0|]; [|apply frame_refl].
-    destruct (s_discrete st) eqn:Ed.
-    + simpl. unfold cell_add_agent, cell_remove_agent.
-      eapply frame_trans; [|split; simpl; reflexivity].
-      eapply frame_trans; [|apply frame_cell_setattr].
-      eapply frame_trans; [|apply frame_cell_setattr]. split; reflexivity.
-    + destruct (occupied _ c); simpl; [apply frame_refl|split; reflexivity].
+    destruct (Nat.eqb (length dir) (length c0) && dir_ok moore dir && valid_coord (s_dims st) (vadd c0 dir)); [|apply frame_refl].
+    apply frame_do_move.
   - destruct (agent_cell (s_agents st) a) as [c0|]; [|apply frame_refl].
-    destruct (s_discrete st) eqn:Ed; simpl; [|split; reflexivity].
-    unfold cell_remove_agent. eapply frame_trans; [|apply frame_cell_setattr]. split; reflexivity.
+    destruct (s_discrete st) eqn:Ed; simpl; [apply frame_cell_remove|unfold leg_remove; apply frame_set_agents].
   - apply frame_refl.
 Qed.
 
@@ -515,18 +556,47 @@ Proof.
   eapply frame_trans; [apply step_frame|apply IH].
 Qed.
 
-Lemma one_value dims ops c n :
-  let st := run_state (init true dims) ops in cell_read st c n = layer_read st n c.
+Lemma one_value multi cap dims ops c n :
+  let st := run_state (init true multi cap dims) ops in cell_read st c n = layer_read st n c.
 Proof.
   intros st. apply one_value_inv.
   - apply run_state_inv. apply inv_init.
-  - destruct (run_state_frame (init true dims) ops) as [H _]. exact H.
+  - destruct (run_state_frame (init true multi cap dims) ops) as [H _]. exact H.
 Qed.
 
 (* ---------- C18: a rejected call leaves the state as it was ---------- *)
-Lemma step_err_unchanged st o st' k : inv st -> step st o = (st', RErr k) -> st' = st.
+Lemma cell_full_nocap st c : s_cap st = 0 -> cell_full st c = false.
+Proof. intros H. unfold cell_full. rewrite H. reflexivity. Qed.
+
+(* "Cell is full" executes `self.empty = False` before it raises; everything else that is
+   rejected has not touched the state.  full_noop st: that one statement changes nothing in st. *)
+Definition full_noop (st : state) : Prop :=
+  forall c, valid_coord (s_dims st) c = true -> cell_full st c = true -> cell_setattr st c EMPTY 0 = st.
+Lemma full_noop_nocap st : s_cap st = 0 -> full_noop st.
+Proof. intros H c _ Hf. rewrite (cell_full_nocap st c H) in Hf. discriminate. Qed.
+
+Lemma add_err_unchanged st a c st' :
+  full_noop st -> valid_coord (s_dims st) c = true -> cell_add_agent st a c = (st', false) -> st' = st.
 Proof.
-  intros I. destruct o; simpl.
+  intros Hn Hc. unfold cell_add_agent. destruct (cell_full st c) eqn:Ef; intros H; inversion H.
+  apply Hn; assumption.
+Qed.
+
+Lemma do_move_err_unchanged st a c0 c st' k :
+  (s_discrete st = true -> full_noop st) -> valid_coord (s_dims st) c = true ->
+  do_move st a c0 c = (st', RErr k) -> st' = st.
+Proof.
+  intros Hn Hc. unfold do_move. destruct (s_discrete st) eqn:Ed.
+  - destruct (coord_eqb c c0); [intros H; inversion H|].
+    destruct (cell_add_agent st a c) as [st1 [|]] eqn:EA; intros H; inversion H; subst.
+    eapply add_err_unchanged; eauto.
+  - destruct (negb (s_multi st) && occupied (drop_agent (s_agents st) a) c); intros H; inversion H; reflexivity.
+Qed.
+
+Lemma step_err_unchanged st o st' k :
+  inv st -> (s_discrete st = true -> full_noop st) -> step st o = (st', RErr k) -> st' = st.
+Proof.
+  intros I Hc. destruct o; simpl.
   - intros H; inversion H.
   - destruct (s_discrete st); [|intros H; inversion H].
     destruct (add_layer st _ _) as [st1 r]. destruct r; intros H; inversion H; reflexivity.
@@ -542,24 +612,42 @@ Proof.
     destruct (modify_cells L fm f hasval cd); intros H; inversion H; reflexivity.
   - case_all; intros H; inversion H; reflexivity.
   - destruct (select_mask st conds exts masks only_empty); intros H; inversion H; reflexivity.
-  - case_all; intros H; inversion H; reflexivity.
-  - case_all; intros H; inversion H.
+  - destruct (valid_coord (s_dims st) c) eqn:Hv; [|intros H; inversion H].
+    destruct (agent_cell (s_agents st) a); [intros H; inversion H|].
+    destruct (s_discrete st) eqn:Ed.
+    + destruct (cell_add_agent st a c) as [st1 [|]] eqn:EA; intros H; inversion H; subst.
+      eapply add_err_unchanged; eauto.
+    + case_all; intros H; inversion H; reflexivity.
+  - destruct (valid_coord (s_dims st) c) eqn:Hv; [|intros H; inversion H].
+    destruct (agent_cell (s_agents st) a); [|intros H; inversion H]. apply do_move_err_unchanged; assumption.
+  - destruct (s_discrete st) eqn:Ed; [|intros H; inversion H].
+    destruct (agent_cell (s_agents st) a) as [c0|]; [|intros H; inversion H].
+    destruct (Nat.eqb (length dir) (length c0) && dir_ok moore dir && valid_coord (s_dims st) (vadd c0 dir)) eqn:Eg;
+      [|intros H; inversion H; reflexivity].
+    apply andb_true_iff in Eg. destruct Eg as [_ Hv].
+    apply do_move_err_unchanged; [rewrite Ed; exact Hc|exact Hv].
   - case_all; intros H; inversion H.
   - intros H; inversion H.
 Qed.
 
 (* reachable states *)
-Definition reachable (st : state) : Prop := exists d dims ops, st = run_state (init d dims) ops.
+Definition reachable (st : state) : Prop :=
+  exists d multi cap dims ops, st = run_state (init d multi cap dims) ops.
 Lemma reachable_inv st : reachable st -> inv st.
-Proof. intros [d [dims [ops ->]]]. apply run_state_inv. apply inv_init. Qed.
+Proof. intros [d [multi [cap [dims [ops ->]]]]]. apply run_state_inv. apply inv_init. Qed.
 
-Lemma atomic_reachable st o st' k : reachable st -> step st o = (st', RErr k) -> st' = st.
-Proof. intros R. apply step_err_unchanged. apply reachable_inv. exact R. Qed.
+Lemma atomic_reachable st o st' k :
+  reachable st -> (s_discrete st = true -> s_cap st = 0) -> step st o = (st', RErr k) -> st' = st.
+Proof.
+  intros R Hc. apply step_err_unchanged; [apply reachable_inv; exact R|].
+  intros Hd. apply full_noop_nocap. exact (Hc Hd).
+Qed.
 
 (* ... hence the rest of the history cannot tell that the call was ever made *)
 Lemma atomic_continue st o st' k ops :
-  reachable st -> step st o = (st', RErr k) -> run_ops st' ops = run_ops st ops.
-Proof. intros R H. rewrite (atomic_reachable _ _ _ _ R H). reflexivity. Qed.
+  reachable st -> (s_discrete st = true -> s_cap st = 0) -> step st o = (st', RErr k) ->
+  run_ops st' ops = run_ops st ops.
+Proof. intros R Hc H. rewrite (atomic_reachable _ _ _ _ R Hc H). reflexivity. Qed.
 
 (* ---------- writes are read back through both views ---------- *)
 Lemma layer_get_with_data L d c :
@@ -684,6 +772,42 @@ Proof.
 Qed.
 
 (* ---------- select_cells ---------- *)
+(* the pipeline in the order the statement needs: masks, only_empty, conditions, then the
+   extreme values among the cells that passed all of those *)
+Definition select_mask_fixed (st : state) (conds : list (Z * cond)) (exts : list (Z * Z))
+           (masks : list (list bool)) (only_empty : bool) : bmask + Z :=
+  let m0 := map (fun c => (c, true)) (all_coords (s_dims st)) in
+  let m1 := apply_masks (s_dims st) m0 masks in
+  match (if only_empty then
+           match empty_view st with
+           | Some e => Some (mask_and m1 (fun c => nz (aget0 e c)))
+           | None => None
+           end
+         else Some m1) with
+  | None => inr E_KEY
+  | Some m2 =>
+      match apply_conds st m2 conds with
+      | None => inr E_KEY
+      | Some m3 => apply_exts st m3 exts
+      end
+  end.
+
+Definition EXPECTED_ORDER : list sel_stage := [SMasks; SEmpty; SConds; SExts].
+(* T1: both implementations have the stages in that order in the CURRENT source *)
+Lemma source_select_order :
+  gen_select_order_discrete = EXPECTED_ORDER /\ gen_select_order_legacy = EXPECTED_ORDER.
+Proof. split; reflexivity. Qed.
+
+Lemma select_mask_eq st conds exts masks oe :
+  select_mask st conds exts masks oe = select_mask_fixed st conds exts masks oe.
+Proof.
+  unfold select_mask, select_mask_fixed. destruct source_select_order as [-> ->].
+  assert ((if s_discrete st then EXPECTED_ORDER else EXPECTED_ORDER) = EXPECTED_ORDER) as -> by (destruct (s_discrete st); reflexivity).
+  unfold EXPECTED_ORDER. simpl. destruct oe.
+  - destruct (empty_view st); [|reflexivity]. destruct (apply_conds st _ conds); [|reflexivity].
+    destruct (apply_exts st b exts); reflexivity.
+  - destruct (apply_conds st _ conds); [|reflexivity]. destruct (apply_exts st b exts); reflexivity.
+Qed.
 Definition fmask (F : coord -> bool) (l : list coord) : bmask := map (fun c => (c, F c)) l.
 
 Lemma mask_and_fmask F f l : mask_and (fmask F l) f = fmask (fun c => F c && f c) l.
@@ -872,7 +996,7 @@ Section Select.
     forall c, In c (mask_list m) <->
               (In c coords /\ passes_exts (passes_base masks oe conds) exts c).
   Proof.
-    unfold select_mask. fold coords. change (map (fun c => (c, true)) coords) with (fmask (fun _ => true) coords).
+    rewrite select_mask_eq. unfold select_mask_fixed. fold coords. change (map (fun c => (c, true)) coords) with (fmask (fun _ => true) coords).
     destruct (masks_ok masks (fun _ => true)) as [F1 [E1 H1]]. fold coords in E1. rewrite E1.
     set (F2 := fun c => F1 c && (if oe then match empty_view st with Some e => nz (aget0 e c) | None => false end else true)).
     assert (forall X, match (if oe then match empty_view st with
